@@ -311,6 +311,11 @@ MUST_FIRE += [
     ("m139", ["C14"], ["K4"], rep1(S + "stabilizer.py", "        content = \"','\".join(self.to_list())", "        content = \"','\".join(pauli.lstrip(\"+-\") for pauli in self.to_list())"), "printed form drops the signs"),
     ("m140", ["C16"], ["E1"], rep1(S + "find_local_clifford_layer.py", "    combinations = np.array([i for i in itertools.product([0, 1], repeat=rank)], dtype=np.int8)", "    combinations = np.array(list(itertools.product([0, 1], repeat=rank)))"), "untyped combination table: float64 when the kernel is empty"),
     ("m141", ["C02", "C07"], ["W16"], rep1(S + "stabilizer_circuits.py", "def compress_preparation_circuit(\n        circuit: QuantumCircuit,\n        connectivity:", "def compress_preparation_circuit(\n        circuit: QuantumCircuit,\n        validate: bool = False,\n        connectivity:"), "parameter inserted in front of connectivity: documented positional calls bind elsewhere"),
+    ("m142", ["C13"], ["A1"], multi(rep1(S + "mub_circuits.py", "        connectivity: Literal[\"all\", \"linear\", \"star\", \"cycle\", \"T\",  \"Q\"]\n) -> dict:", "        connectivity: Literal[\"all\", \"linear\", \"star\", \"cycle\", \"T\",  \"Q\"],\n        info: dict = {}\n) -> dict:"), rep1(S + "mub_circuits.py", "    info = {}\n", "")), "result dictionary is a mutable default argument"),
+    ("m143", ["C10", "C11"], ["B3"], rep1(S + "tomography.py", "            new_key: Pauli = full_identity.copy()", "            new_key = Pauli(full_identity)"), "every key adopts the arrays of the template Pauli"),
+    ("m144", ["C11"], ["B3"], rep1(S + "tomography.py", "                new_key[qubit] = key[index]", "                new_key[qubit] = key.to_label()[index]"), "factor read from the label (highest qubit first) at the list position"),
+    ("m145", ["C19"], ["K11"], rep1(S + "graph.py", "        if vertex1 == vertex2:", "        if vertex1 is vertex2:"), "self-loop guard by object identity"),
+    ("m146", ["C18"], ["K19b"], rep1(S + "f2_algebra.py", "        result = (A % 2).astype(np.int8)", "        result = (A % 2).view(np.int8)"), "bytes re-read as int8 instead of converted"),
     ("m95", ["C19"], ["K12"], rep1(S + "graph.py", "    def compress(self) -> int:", "    def compress(self) -> int:\n        if getattr(self, \"_id\", None) is not None:\n            return self._id\n        self._id = self._compress()\n        return self._id\n\n    def _compress(self) -> int:"), "graph id remembered by the object and never invalidated"),
     ("m72", ["C13"], ["A3"], rep1(S + "circuit_lookup.py", "result.circuits = [circuit.copy() for circuit in self.circuits]", "result.circuits = list(self.circuits)"), "fresh list of the cached circuits"),
 ]
